@@ -9,7 +9,7 @@ package ast
 //@ func newBuffer props C06
 //@   requires option.DefaultAstBufferSize <= 1099511627776 && sync.poolWF()
 //@   modifies $pooled
-//@   ensures result != nil && fresh(result) && (base(*result) == 0 || fresh(*result))
+//@   ensures result != nil && fresh(result) && (base(*result) == 0 || fresh(*result)) && len(*result) == 0
 //@   ensures !$pooled[base(*result)]
 //@   ensures forall r int :: $pooled[r] ==> old($pooled[r])
 //@   ensures sync.poolWF()
